@@ -1,9 +1,11 @@
 // C18 harness: applies generated operation sequences to the real gtry::sim::BitVectorState<Config>
 // and prints every operation with the implementation's result and the raw words of the touched state.
-// Usage: c18 <seed> <ncases> <opsPerCase>
+// Usage: c18 <seed> <ncases> <opsPerCase>   (opsPerCase 0: literal mode; 'sig': integers through simulation signal handles)
 #include <gatery/pch.h>
 #include <gatery/simulation/BitVectorState.h>
 #include "common.h"
+#include "simhelp.h"
+#include <gatery/simulation/SigHandle.h>
 #include <iostream>
 
 using namespace gtry;
@@ -261,9 +263,81 @@ static void literalCase(uint64_t k, Rng &rng, std::ostream &o) {
 	o << "end\n";
 }
 
+// Integers through the simulation signal handles (SigHandle.cpp): operator=(uint64_t / int64_t / BigInt) into pins of many widths and the
+// conversions back (value(), operator int64_t, operator BigInt). One design per case, a simulation process assigns and reads.
+static void sigCase(uint64_t k, Rng &rng, std::ostream &o) {
+	static const std::vector<size_t> widths = {1, 2, 7, 8, 31, 32, 33, 62, 63, 64, 65, 66, 100, 127, 128, 129, 200};
+	size_t w = rng.chance(3, 4) ? rng.pick(widths) : 1 + rng.below(260);
+	o << "case " << k << " S\n";
+	try {
+		DesignScope design;
+		Clock clock({ .absoluteFrequency = 10'000 });
+		ClockScope clockScope(clock);
+		SInt a = BitWidth(w);
+		pinIn(a, "a");
+		SInt pass = a;
+		pinOut(pass, "pass");
+		UInt au = BitWidth(w); // unsigned imports go through a UInt pin (an SInt handle takes a uint64_t as int64_t)
+		pinIn(au, "au");
+		UInt passu = au;
+		pinOut(passu, "passu");
+		sim::ReferenceSimulator simulator(false);
+		simulator.compileProgram(design.getCircuit());
+		std::ostringstream lines;
+		Rng r = rng.fork();
+		simulator.addSimulationProcess([&]()->SimProcess {
+			for (int n = 0; n < 10; n++) {
+				unsigned kind = (unsigned) r.below(3);
+				std::int64_t v;
+				switch (r.below(8)) { case 0: v = 0; break; case 1: v = -1; break; case 2: v = INT64_MIN; break; case 3: v = INT64_MAX; break;
+					case 4: v = (std::int64_t) (r.next() >> r.below(64)); break; case 5: v = -(std::int64_t) (r.next() >> (1 + r.below(63))); break;
+					default: v = (std::int64_t) r.next(); break; }
+				std::string vtxt;
+				if (kind == 0) { simu(au) = (std::uint64_t) v; vtxt = std::to_string((std::uint64_t) v); }
+				else if (kind == 1) { simu(a) = v; vtxt = std::to_string(v); }
+				else {
+					// a big integer of up to w+8 bits, either sign
+					sim::BigInt b = 0;
+					size_t nb = r.below(w + 9);
+					for (size_t i = 0; i < nb; i += 32) { b <<= 32; b |= (std::uint32_t) r.next(); }
+					if (nb) b &= (sim::BigInt(1) << nb) - 1;
+					if (r.chance(1, 2)) b = -b;
+					simu(a) = b; vtxt = b.str();
+				}
+				co_await WaitFor({1, 100'000});
+				if (kind == 0) {
+					auto st = simu(passu).eval();
+					lines << "sg u " << w << ' ' << vtxt << " -> " << vh::bitsToString(st);
+					if (w <= 64) lines << " u=" << simu(passu).value();
+					lines << " b=" << ((sim::BigInt) simu(passu)).str() << '\n';
+				} else {
+					auto st = simu(pass).eval();
+					lines << "sg " << "uib"[kind] << ' ' << w << ' ' << vtxt << " -> " << vh::bitsToString(st);
+					if (w <= 64) lines << " i=" << (std::int64_t) simu(pass);
+					lines << " b=" << ((sim::BigInt) simu(pass)).str() << '\n';
+				}
+			}
+			simulator.abort();
+		});
+		simulator.powerOn();
+		simulator.advance({1, 100});
+		o << lines.str();
+	} catch (const std::exception &e) {
+		std::string m = e.what(); for (auto &c : m) if (c == '\n') c = ' ';
+		o << "sgerr " << m.substr(0, 160) << '\n';
+	}
+	o << "end\n";
+}
+
 int main(int argc, char **argv) {
 	uint64_t seed = vh::argU64(argc, argv, 1, 1), ncases = vh::argU64(argc, argv, 2, 100), nops = vh::argU64(argc, argv, 3, 50);
 	std::ios::sync_with_stdio(false);
+	if (argc > 3 && std::string(argv[3]) == "sig") { // signal-handle import/export mode
+		Rng top(seed * 0x100000001b3ull + 51818);
+		std::cout << "# prop=C18 sighandle seed=" << seed << " cases=" << ncases << "\n";
+		for (uint64_t k = 0; k < ncases; k++) { Rng rng = top.fork(); sigCase(k, rng, std::cout); }
+		return 0;
+	}
 	if (nops == 0) { // literal mode
 		Rng top(seed * 0x100000001b3ull + 1818);
 		std::cout << "# prop=C18 literals seed=" << seed << " cases=" << ncases << "\n";
